@@ -110,47 +110,68 @@ def bitsWithin (v : Nat) (allowed : List Nat) : Bool :=
 
 def findCons (s : Schema) (n : String) : Option Comb := findLast (fun c => c.name == n) (s.filter isTypeComb)
 
-def restAbsent (e : Env) (fs : List Field) : Bool := fs.all (fun f => present e f == some false)
+/-- the fields left when a value has no more entries must all be absent (an absent `#` field counts as 0). -/
+def restAbsent : Env → List Field → Bool
+  | _, [] => true
+  | e, f :: fs => present e f == some false && restAbsent (e.after f none) fs
+
+/-- primitives are fixed by name: `some r` = the name is a primitive and `r` is the encoding attempt. -/
+def primEnc (n : String) (v : Val) : Option (Option Bytes) :=
+  if n == "#" then some (match v with
+    | .nat k => if k < 4294967296 then some (le32 k) else none
+    | _ => none)
+  else if n == "int" then some (match v with
+    | .prim bs => if bs.length == 4 then some bs else none
+    | _ => none)
+  else if n == "long" then some (match v with
+    | .prim bs => if bs.length == 8 then some bs else none
+    | _ => none)
+  else if n == "string" then some (match v with
+    | .prim bs => Prim.stringWrite bs
+    | _ => none)
+  else none
+
+/-- how a head name was resolved: as a constructor name (bare), or as a type name with that many constructors. -/
+inductive Pick where
+  | byCons
+  | byType (count : Nat)
+
+/-- the combinator a value `cn …` of head `n` is encoded with. -/
+def pickComb (s : Schema) (n cn : String) : Option (Comb × Pick) :=
+  match findCons s n with
+  | some c => if c.name == cn then some (c, .byCons) else none
+  | none => (findLast (fun c => c.name == cn) (typeCombs s n)).map (fun c => (c, .byType (typeCombs s n).length))
+
+/-- boxed references prepend the constructor tag; a bare reference to a type needs a single constructor. -/
+def wrapBody (p : Pick) (b : Bool) (c : Comb) (body : Bytes) : Option Bytes :=
+  match p with
+  | .byCons => some body
+  | .byType k => if b then (if k == 1 then some body else none) else some (le32 c.tag ++ body)
+
+/-- the strictness test for a `#` field (only "old values" are constrained). -/
+def strictOk (strict : Bool) (c : Comb) (i : Nat) (f : Field) (k : Nat) : Bool :=
+  !(strict && isNatField f && maskOnly c i && !bitsWithin k (maskBits c f.name))
+
+def natOf : Val → Option Nat
+  | .nat k => some k
+  | _ => none
 
 mutual
   /-- TL1 encoding of a value of a closed reference. `strict`: fail when a mask-only `#` field sets a bit the
   schema gives no meaning to (this is how "old values" are delimited). -/
   def encTy (s : Schema) (strict : Bool) : TypeRef → Val → Option Bytes
     | .mk n b args, v =>
-      if n == "#" then (match v with
-        | .nat k => if k < 4294967296 then some (le32 k) else none
-        | _ => none)
-      else if n == "int" then (match v with
-        | .prim bs => if bs.length == 4 then some bs else none
-        | _ => none)
-      else if n == "long" then (match v with
-        | .prim bs => if bs.length == 8 then some bs else none
-        | _ => none)
-      else if n == "string" then (match v with
-        | .prim bs => Prim.stringWrite bs
-        | _ => none)
-      else match v with
+      match primEnc n v with
+      | some r => r
+      | none =>
+        match v with
         | .ctor cn fs =>
-          (match findCons s n with
-           | some c =>
-             if c.name == cn then
-               (match bindTargs c.targs args Env.empty with
-                | some e => encFields s strict c e 0 c.fields fs
-                | none => none)
-             else none
-           | none =>
-             let cs := typeCombs s n
-             match findLast (fun c => c.name == cn) cs with
+          (match pickComb s n cn with
+           | none => none
+           | some (c, p) =>
+             match bindTargs c.targs args Env.empty with
              | none => none
-             | some c =>
-               match bindTargs c.targs args Env.empty with
-               | none => none
-               | some e =>
-                 match encFields s strict c e 0 c.fields fs with
-                 | none => none
-                 | some body =>
-                   if b then (if cs.length == 1 then some body else none)
-                   else some (le32 c.tag ++ body))
+             | some e => (encFields s strict c e 0 c.fields fs).bind (wrapBody p b c))
         | _ => none
   def encFields (s : Schema) (strict : Bool) (c : Comb) (e : Env) (i : Nat) : List Field → VList → Option Bytes
     | [], .nil => some []
@@ -173,9 +194,9 @@ mutual
           match encTy s strict (substRef e f.ty) v with
           | none => none
           | some bs =>
-            let k : Option Nat := match v with | .nat k => some k | _ => none
-            if strict && isNatField f && maskOnly c i && !bitsWithin (k.getD 0) (maskBits c f.name) then none
-            else (encFields s strict c (e.after f k) (i + 1) fs rest).map (fun r => bs ++ r)
+            if strictOk strict c i f ((natOf v).getD 0) then
+              (encFields s strict c (e.after f (natOf v)) (i + 1) fs rest).map (fun r => bs ++ r)
+            else none
   def encElems (s : Schema) (strict : Bool) (t : TypeRef) : Nat → VList → Option Bytes
     | 0, .nil => some []
     | k + 1, .cons v rest =>
@@ -206,7 +227,7 @@ def safeExtra (c : Comb) (f : Field) : Bool :=
     (firstIdx (fun a : TArg => a.name == m.name) c.targs).isNone &&
     (match firstIdx (fun g : Field => g.name == m.name) c.fields with
      | none => false
-     | some k => maskOnly c k && !(maskBits c m.name).contains m.bit &&
+     | some k => maskOnly c k && !(maskBits c m.name).contains m.bit && m.bit < 32 &&
        (lastIdx (fun g : Field => g.name == m.name) c.fields == some k))
 
 def combCompat (c c' : Comb) : Bool :=
@@ -226,7 +247,7 @@ def wireCompat (old new : Schema) : Bool :=
     | none => false) &&
   (typeOrder old).all (fun T => (findCons new T).isNone && (findCons old T).isNone &&
     (match typeCombs old T with
-     | [c] => (typeCombs new T).length ≤ 1 || !usedBareSomewhere old c
+     | [_] => (typeCombs new T).length ≤ 1
      | _ => true)) &&
   (funcCombs old).all (fun f => match findFunc new f.name with
     | some f' => combCompat f f'
